@@ -45,7 +45,7 @@ Fixpoint wire_fields (fuel : nat) (bs : list Z) : option (list wfield) :=
       let '(v, n) := varint_dec bs in
       if n <? 0 then None else
       let num := v / 8 in let wt := v mod 8 in
-      if (num <? 1) || (num >? 536870911) then None else
+      if (num <? 1) || (num >? 2147483647) then None else
       match wire_value wt (skipn (Z.to_nat n) bs) with
       | None => None
       | Some (raw, rest) => match wire_fields f rest with Some l => Some (WF num wt raw :: l) | None => None end
@@ -140,18 +140,108 @@ Section ToTree.
     end.
 End ToTree.
 
-(* ---- algorithm level: marshalTo on bytes ---- *)
-(* ConsumeTag with its error result DISCARDED, as marshalTo calls it: (number, wire type, rest) *)
-Definition ptag (bs : list Z) : Z * Z * list Z :=
-  let '(v, n) := varint_dec bs in
-  if n <? 0 then (0, 0, bs)
-  else let rest := skipn (Z.to_nat n) bs in
-       if v / 8 >? 2147483647 then (-1, 0, rest)
-       else if v / 8 <? 1 then (0, 0, rest)
-       else (v / 8, v mod 8, rest).
+(* ---- sequential spec: the projection with the order in which errors surface, on FRAMES ----
+   A frame is the byte string of one message. [inc] = the frame is incomplete: its declared length exceeded the bytes that
+   were left (truncated input), so reaching its end is an error. [be] = "beyond empty": nothing follows the frame in the
+   whole buffer. Result codes: 1 unknown field (disallowed), 2 kind mismatch of the two descriptors, 4 malformed /
+   truncated input, 5 = the input is OUTSIDE THE DOMAIN the refinement theorem speaks about:
+     - group / reserved wire types 3, 4, 6, 7 (Skip does nothing for them),
+     - a message-kind field that does not arrive length-delimited (the code reads the next varint as a length),
+     - a length >= 2^63 (int(len) is negative: the code writes an empty sub message and goes on),
+     - a record or sub message that overruns its frame while other bytes follow the frame in the buffer (the code
+       checks bounds against the whole buffer only and reads across the frame end).
+   Everything else - in particular every truncation of a well-framed message - is inside. *)
+Inductive wtag := TgEnd | TgBad | TgOut | TgOk (num wt : Z) (rest : list Z).
+Definition wire_tag (bs : list Z) : wtag :=
+  match bs with
+  | [] => TgEnd
+  | _ =>
+    let '(v, n) := varint_dec bs in
+    if n <? 0 then TgBad
+    else if (v / 8 <? 1) || (v / 8 >? 2147483647) then TgBad
+    else let wt := v mod 8 in
+         if (wt =? 3) || (wt =? 4) || (wt =? 6) || (wt =? 7) then TgOut
+         else TgOk (v / 8) wt (skipn (Z.to_nat n) bs)
+  end.
 
-(* BinaryProtocol.Skip: None = error, 9 = panic ("invalid size" in next) is folded into None by the caller's class *)
-Inductive skipres := SkOk (rest : list Z) | SkErr | SkPanic.
+Section PSpec.
+  Variable d : pdefs.
+  Variable disallow : bool.
+  Section Step.
+    Variable rec : Z -> Z -> list Z -> bool -> bool -> cres (list wtree).   (* from, to, frame, inc, be *)
+    Fixpoint pspec_loop (fuel : nat) (ffs tfs : list pfield) (bs : list Z) (inc be : bool) : cres (list wtree) :=
+      match fuel with
+      | O => CErr 5
+      | S f =>
+        let bad : cres (list wtree) := if be then CErr 4 else CErr 5 in
+        match wire_tag bs with
+        | TgEnd => if inc then CErr 4 else COk []
+        | TgBad => bad
+        | TgOut => CErr 5
+        | TgOk num wt r =>
+          let skipv (u : unit) : cres (list wtree) :=
+            match wire_value wt r with
+            | Some (_, rest) => pspec_loop f ffs tfs rest inc be
+            | None => bad
+            end in
+          match pfind num ffs with
+          | None => if disallow then CErr 1 else skipv tt
+          | Some ff =>
+            match pfind num tfs with
+            | None => skipv tt
+            | Some tf =>
+              if negb (pf_kind ff =? pf_kind tf) then CErr 2 else
+              if pf_kind ff =? K_MESSAGE then
+                if negb (wt =? 2) then CErr 5 else
+                let '(len, n) := varint_dec r in
+                if n <? 0 then bad else
+                if len >=? 2 ^ 63 then CErr 5 else
+                let r2 := skipn (Z.to_nat n) r in
+                if len <=? Z.of_nat (length r2) then
+                  let after := skipn (Z.to_nat len) r2 in
+                  match rec (pf_sub ff) (pf_sub tf) (firstn (Z.to_nat len) r2) false (be && match after with [] => true | _ => false end) with
+                  | CErr c => CErr c
+                  | COk kids => match pspec_loop f ffs tfs after inc be with COk l => COk (TMsg num wt kids :: l) | CErr c => CErr c end
+                  end
+                else if be then
+                  match rec (pf_sub ff) (pf_sub tf) r2 true true with
+                  | CErr c => CErr c
+                  | COk _ => CErr 4          (* cannot happen: an incomplete frame never succeeds *)
+                  end
+                else CErr 5
+              else
+                match wire_value wt r with
+                | Some (raw, rest) => match pspec_loop f ffs tfs rest inc be with COk l => COk (TLeaf num wt raw :: l) | CErr c => CErr c end
+                | None => bad
+                end
+            end
+          end
+        end
+      end.
+  End Step.
+
+  Fixpoint pspec (fuel : nat) (fi ti : Z) (bs : list Z) (inc be : bool) {struct fuel} : cres (list wtree) :=
+    match fuel with
+    | O => CErr 5
+    | S f =>
+      match pmsg_def d fi, pmsg_def d ti with
+      | Some ffs, Some tfs => pspec_loop (pspec f) (S (length bs)) ffs tfs bs inc be
+      | _, _ => CErr 5
+      end
+    end.
+End PSpec.
+
+(* ---- algorithm level: marshalTo on bytes ---- *)
+(* ConsumeTag: None = its error (invalid varint, field number < 1 or > MaxInt32), which marshalTo returns as a read error *)
+Definition ptag (bs : list Z) : option (Z * Z * list Z) :=
+  let '(v, n) := varint_dec bs in
+  if n <? 0 then None
+  else if v / 8 >? 2147483647 then None
+  else if v / 8 <? 1 then None
+  else Some (v / 8, v mod 8, skipn (Z.to_nat n) bs).
+
+(* BinaryProtocol.Skip (SkipBytesType compares the length with what is left before converting it); wire types 3, 4, 6, 7: nothing *)
+Inductive skipres := SkOk (rest : list Z) | SkErr.
 Definition pskip (wt : Z) (bs : list Z) : skipres :=
   if wt =? 0 then let '(_, n) := varint_dec bs in if n <? 0 then SkErr else SkOk (skipn (Z.to_nat n) bs)
   else if wt =? 5 then match take_n 4 bs with Some (_, r) => SkOk r | None => SkErr end
@@ -159,17 +249,17 @@ Definition pskip (wt : Z) (bs : list Z) : skipres :=
   else if wt =? 2 then
     let '(len, n) := varint_dec bs in
     if n <? 0 then SkErr else
-    let all := to_s 64 len + n in
-    if all <=? 0 then SkPanic else match take_n all bs with Some (_, r) => SkOk r | None => SkErr end
+    if len >? Z.of_nat (length bs) - n then SkErr else
+    match take_n (len + n) bs with Some (_, r) => SkOk r | None => SkErr end
   else SkOk bs.
 
-(* result of the walker: error class (0 = nil, 9 = panic), remaining input, output so far *)
+(* result of the walker: error class (0 = nil), remaining input, output so far *)
 Definition pres : Type := Z * list Z * list Z.
 
 Section PBCut.
   Variable d : pdefs.
   Variable disallow : bool.
-  Variable quirk : bool.       (* true: the error of the recursive marshalTo call is ignored (finding 1102) *)
+  Variable quirk : bool.       (* true: the error of the recursive marshalTo call is ignored (finding 1102, repaired) *)
 
   Section Loop.
     Variable rec : Z -> Z -> list Z -> Z -> pres.     (* from, to, input, stop (remaining length at the tail) *)
@@ -179,37 +269,36 @@ Section PBCut.
       | O => (4, bs, out)
       | S f =>
         if Z.of_nat (length bs) <=? stop then (0, bs, out) else
-        let '(num, wt, r) := ptag bs in
-        let skip_on (u : unit) : pres :=     (* a function: the extracted code must not evaluate it eagerly *)
-          match pskip wt r with
-          | SkOk r' => pb_loop f ffs tfs r' stop out
-          | SkErr => (4, r, out)
-          | SkPanic => (9, r, out)
-          end in
-        if num <? 0 then (9, r, out) else       (* FieldIDMap.Get indexes with a negative id: runtime panic *)
-        match pfind num ffs with
-        | None => if disallow then (1, r, out) else skip_on tt
-        | Some ff =>
-          match pfind num tfs with
-          | None => skip_on tt
-          | Some tf =>
-            if negb (pf_kind ff =? pf_kind tf) then (2, r, out) else
-            if pf_kind ff =? K_MESSAGE then
-              let out1 := out ++ varint_enc (num * 8 + wt mod 8) in
-              let '(len, n) := varint_dec r in
-              if n <? 0 then (4, r, out1) else
-              let r2 := skipn (Z.to_nat n) r in
-              let '(c, r3, o2) := rec (pf_sub ff) (pf_sub tf) r2 (Z.of_nat (length r2) - to_s 64 len) in
-              let out2 := out1 ++ varint_enc (Z.of_nat (length o2)) ++ o2 in
-              if (c =? 9) then (9, r3, out2)
-              else if negb (c =? 0) && negb quirk then (c, r3, out2)
-              else pb_loop f ffs tfs r3 stop out2
-            else
-              match pskip wt r with
-              | SkOk r' => pb_loop f ffs tfs r' stop (out ++ varint_enc (num * 8 + wt mod 8) ++ firstn (length r - length r') r)
-              | SkErr => (4, r, out)
-              | SkPanic => (9, r, out)
-              end
+        match ptag bs with
+        | None => (4, bs, out)
+        | Some (num, wt, r) =>
+          let skip_on (u : unit) : pres :=     (* a function: the extracted code must not evaluate it eagerly *)
+            match pskip wt r with
+            | SkOk r' => pb_loop f ffs tfs r' stop out
+            | SkErr => (4, r, out)
+            end in
+          match pfind num ffs with
+          | None => if disallow then (1, r, out) else skip_on tt
+          | Some ff =>
+            match pfind num tfs with
+            | None => skip_on tt
+            | Some tf =>
+              if negb (pf_kind ff =? pf_kind tf) then (2, r, out) else
+              if pf_kind ff =? K_MESSAGE then
+                let out1 := out ++ varint_enc (num * 8 + wt mod 8) in
+                let '(len, n) := varint_dec r in
+                if n <? 0 then (4, r, out1) else
+                let r2 := skipn (Z.to_nat n) r in
+                let '(c, r3, o2) := rec (pf_sub ff) (pf_sub tf) r2 (Z.of_nat (length r2) - to_s 64 len) in
+                let out2 := out1 ++ varint_enc (Z.of_nat (length o2)) ++ o2 in
+                if negb (c =? 0) && negb quirk then (c, r3, out2)
+                else pb_loop f ffs tfs r3 stop out2
+              else
+                match pskip wt r with
+                | SkOk r' => pb_loop f ffs tfs r' stop (out ++ varint_enc (num * 8 + wt mod 8) ++ firstn (length r - length r') r)
+                | SkErr => (4, r, out)
+                end
+            end
           end
         end
       end.
